@@ -187,7 +187,6 @@ Definition cguard (s : sst) (k : cls) : bool :=
   match k, s with
   | kBs, (SDir _ _, _) => true                (* C escapes and splices exist on # lines only *)
   | kBs, _ => false                           (* no backslash in Fortran text *)
-  | kSl, (SDir _ DSq, _) => false             (* no / inside a character constant of a directive line *)
   | kHash, (SIn _, (mU | mB)) => false        (* # as the first thing after a leading continuation & *)
   | _, _ => true
   end.
